@@ -390,12 +390,15 @@ func (s *TranslateFile) replayEntries() error {
 // monitorReplication is executed in a separate goroutine and continually streams
 // from the primary store until this store is closed.
 func (s *TranslateFile) monitorReplication() {
+	// Closed when this replication is dropped (see handlePrimaryStoreEvent).
+	closing := s.replicationClosing
+
 	// Create context that will cancel on close.
 	ctx, cancel := context.WithCancel(context.Background())
 	go func() {
 		select {
 		case <-s.closing:
-		case <-s.replicationClosing:
+		case <-closing:
 		}
 		cancel()
 	}()
@@ -405,8 +408,16 @@ func (s *TranslateFile) monitorReplication() {
 		if err := s.replicate(ctx); err != nil {
 			s.logger.Printf("pilosa: replication error: %s", err)
 		}
+		// Stop as soon as the store closes or the replication is dropped, not
+		// only once the context has been cancelled (by another goroutine):
+		// whoever drops the replication holds the store's lock while waiting
+		// for this goroutine, and replicate() needs that lock.
 		select {
 		case <-ctx.Done():
+			return
+		case <-s.closing:
+			return
+		case <-closing:
 			return
 		case <-time.After(s.replicationRetryInterval):
 			s.logger.Printf("pilosa: reconnecting to primary replica")
